@@ -107,6 +107,40 @@ pub fn dispatch(op: &str, a: &[&str]) -> Option<Ans> {
                 }
             }
         }
+        // pwhash_presets: the cost presets of the object API, rendered through from_parts/to_string (no hashing), against libsodium's constants
+        "pwhash_presets" => {
+            let render = |c: Config| -> String {
+                let p: VecPwHash = PwHash::from_parts(vec![1u8; 32], vec![2u8; 16], c);
+                let s = p.to_string();
+                s.split('$').nth(3).unwrap_or("?").to_string()
+            };
+            let got = format!("interactive={} moderate={} sensitive={} default={}", render(Config::interactive()), render(Config::moderate()), render(Config::sensitive()), render(Config::default()));
+            let so_p = |o: usize, m: usize| format!("m={},t={},p=1", m / 1024, o);
+            let want = unsafe { format!("interactive={} moderate={} sensitive={} default={}",
+                so_p(so::crypto_pwhash_opslimit_interactive(), so::crypto_pwhash_memlimit_interactive()),
+                so_p(so::crypto_pwhash_opslimit_moderate(), so::crypto_pwhash_memlimit_moderate()),
+                so_p(so::crypto_pwhash_opslimit_sensitive(), so::crypto_pwhash_memlimit_sensitive()),
+                so_p(so::crypto_pwhash_opslimit_interactive(), so::crypto_pwhash_memlimit_interactive())) };
+            (format!("ok {}", got), format!("ok {}", want))
+        }
+        // pwhash_defaults <pwd> <wrong>: hash_with_defaults / hash_interactive (64 MiB, t = 2) and from_string_with_defaults
+        "pwhash_defaults" => {
+            let (pwd, wrong) = (unhex(a[0]), unhex(a[1]));
+            let h = dryoc::pwhash::PwHash::hash_with_defaults(&pwd);
+            let h2: Result<VecPwHash, _> = PwHash::hash_interactive(&pwd);
+            match (h, h2) {
+                (Ok(h), Ok(h2)) => {
+                    let s = h.to_string();
+                    let back = dryoc::pwhash::PwHash::from_string_with_defaults(&s);
+                    let okb = match back { Ok(b) => b.verify(&pwd).is_ok() && b.verify(&wrong).is_err() && b.to_string() == s, Err(_) => false };
+                    let params = |x: &str| x.split('$').take(4).collect::<Vec<_>>().join("$");
+                    let sv = match cstr128(&s) { Some(c) => { let r = unsafe { so::crypto_pwhash_str_verify(c.as_ptr(), pwd.as_ptr() as *const _, pwd.len() as u64) }; r == 0 } None => false };
+                    (format!("ok verify={}{} reparse={} sodium={} params={} same-params={}", res(&h.verify(&pwd)), res(&h.verify(&wrong)), okb, sv, params(&s), params(&s) == params(&h2.to_string())),
+                     "ok verify=okerr reparse=true sodium=true params=$argon2id$v=19$m=65536,t=2,p=1 same-params=true".into())
+                }
+                _ => ("err".into(), "n/a".into()),
+            }
+        }
         // pwhash_str <opslimit> <memlimit> <pwd> <entropy> <wrongpwd>
         "pwhash_str" => {
             let ops: u64 = a[0].parse().unwrap();
